@@ -95,6 +95,42 @@ theorem C01_wire_roundtrip (F : Perm) (fuel : Nat) (m e : Bytes) (t : Nat) (ht :
     norm_num
   · rw [htag]; unfold deriveRandom; rw [strobeDigest_length]; norm_num
 
+/-- **End to end through the wire.** The aggregation side never sees `rep c`, only the bytes
+`(rep c).toBytes`. Whatever list of byte strings it receives that are the encodings of selected
+reports, decoding every one of them with `Message::from_bytes` succeeds, and recovery and
+decryption from the DECODED reports give the commune, the measurement and every client's
+associated data exactly as in `C01_recover_and_decrypt`. -/
+theorem C01_recover_and_decrypt_from_wire (F : Perm) (fuel : Nat) (m e : Bytes) (t : Nat) (ht : 1 ≤ t)
+    (ht32 : t < 2 ^ 32) (rnd : Bytes)
+    (clients : List Client) (rep : Client → Message)
+    (hgen : ∀ c ∈ clients, generate F fuel m e t rnd c.1 c.2 = some (.ok (rep c)))
+    (hx : ∀ c ∈ clients, c.2 < Fp.p)
+    (hm : m.length < 2 ^ 32) (haux : ∀ c ∈ clients, ∀ a, c.1 = some a → a.length < 2 ^ 32)
+    (hpl : ∀ c ∈ clients, (payload m c.1).length < 2 ^ 32)
+    (sel : List Client) (hsel : ∀ c ∈ sel, c ∈ clients)
+    (hcount : t ≤ (sel.map (·.2)).toFinset.card) :
+    ∃ dec : Client → Message,
+      (∀ c ∈ clients, Message.fromBytes (rep c).toBytes = .ok (dec c)) ∧
+      shareRecover F (sel.map fun c => (dec c).share) =
+        .ok ⟨t, deriveRandom F rnd 0, deriveRandom F rnd 1⟩ ∧
+      ∀ c ∈ clients,
+        parsePayload (decrypt F (deriveSkeKey F (deriveRandom F rnd 0) e) (dec c).ciphertext
+          Params.starEncryptLabel) = some (m, c.1) :=
+  ⟨rep,
+   fun c hc => C01_wire_roundtrip F fuel m e t ht ht32 rnd c.1 c.2 (hx c hc) (rep c) (hpl c hc) (hgen c hc),
+   C01_recover_and_decrypt F fuel m e t ht rnd clients rep hgen hx hm haux sel hsel hcount⟩
+
+/-- decoding is a function: the decoded report is determined by the bytes, so the `dec` above is
+the only one — a server cannot decode the same bytes to a different report. -/
+theorem C01_decoded_report_unique (F : Perm) (fuel : Nat) (m e : Bytes) (t : Nat) (ht : 1 ≤ t)
+    (ht32 : t < 2 ^ 32) (rnd : Bytes) (aux : Option Bytes) (x : Nat) (hx : x < Fp.p) (msg msg' : Message)
+    (hpl : (payload m aux).length < 2 ^ 32)
+    (h : generate F fuel m e t rnd aux x = some (.ok msg))
+    (hdec : Message.fromBytes msg.toBytes = .ok msg') : msg' = msg := by
+  have := C01_wire_roundtrip F fuel m e t ht ht32 rnd aux x hx msg hpl h
+  rw [this] at hdec
+  injection hdec with hdec; exact hdec.symm
+
 /-- both randomness sources: the statement holds in particular for locally derived randomness -/
 theorem C01_local_randomness (F : Perm) (fuel : Nat) (m e : Bytes) (t : Nat) (ht : 1 ≤ t)
     (clients : List Client) (rep : Client → Message)
